@@ -97,6 +97,7 @@ type Lemma struct {
 	Props []string
 	Induct string
 	Trigger *CExpr
+	CheckOnly bool // proved as an obligation, never offered as an axiom
 }
 
 type Macro struct {
@@ -329,6 +330,10 @@ func ParseContractFile(path string, cs *ContractSet) error {
 			cur.Pure = true
 		case "fresh":
 			cur.Fresh = true
+		case "checkonly":
+			if curLemma != nil {
+				curLemma.CheckOnly = true
+			}
 		case "trigger":
 			if curLemma == nil {
 				return fail("trigger outside lemma")
